@@ -78,6 +78,15 @@ CHECKS = {
          "the plain tables byte for byte, debug/verbose builds must be byte-identical to the default, and all builds must shape 40-150 texts identically through libgraphite2."),
    note=TB + "LZ4 decoder is an executable Lean definition (partial def), not a proved one; the LZ4-HC compressor is validated per output only. Collision passes are not generated here (C20).",
    design="4/C15"),
+ "C12": dict(
+   technique="Lean 4 theorem over the limit table regenerated from constants.h + size-parameterised program families compiled around each limit and decoded strictly",
+   text=("Proof: Grc.Lim.guarded_no_wrap — for each of 11 size limits (passes, rule slots, features, user slot attributes, replacement classes, glyph attributes, Glat-v1 attribute ids, pseudo-glyphs, "
+         "script tags, glyphs per font, attribute values), with the constant re-extracted from constants.h on every run, every quantity the guard accepts is below 2^width of the field that stores it. "
+         "Tie: ten program families (passes, rule slots, leading-context length, features, user attribute index, glyph attributes across the Glat v1/v2 switch, font-name length, item-constraint code "
+         "length across the one-byte skip count, action-block size across the 16-bit code offsets, replacement classes under -v2) are compiled at limit-1, limit, limit+1 and far above: each outcome "
+         "must be an error and no font, or a font that passes the strict decoders, is accepted by libgraphite2 and stores the true value."),
+   note=TB + "Field widths are my reading of GTF. Families needing > 65535 glyphs/classes/attributes are not generated. Narrowing writes guarded only by Assert that no family reaches remain unexplored.",
+   design="4/C12"),
  "C13": dict(
    technique="Lean 4 order-independence theorems for the pointer-ordered containers + perturbation/concurrency exploration of the real binary",
    text=("Proof: Det.key_perm and Det.sameSet_perm_left (machine-class key and grouping are invariant under any iteration order of the pointer-ordered source-class sets), "
